@@ -9,8 +9,12 @@ import "context"
 const vPrintFlagBits = Ldate | Ltime | Lmicroseconds | LlocalTime | Lattrs | LattrsR | Llineno | Lcaller |
 	Lcallerpackagename | Lprivacypath | Lprivacypathregexp | LsmartJSONMode
 
+const vC12AsPanic, vC12AsFatal = Level(50), Level(51)
+
 func VH_C12() {
 	vProduction()
+	_ = RegisterLevel(vC12AsPanic, "aspanic", RegWithTreatedAsLevel(PanicLevel))
+	_ = RegisterLevel(vC12AsFatal, "asfatal", RegWithTreatedAsLevel(FatalLevel))
 	inTesting = vBool()
 	flags = (LstdFlags & vPrintFlagBits) | (Flags(vInt()) &^ vPrintFlagBits)
 	noInt := flags&LnoInterrupt == LnoInterrupt
@@ -38,7 +42,14 @@ func VH_C12() {
 	e := vChoose(vNumEntryPoints)
 	var sev Level
 	if e == 24 || e == 25 {
-		sev = Level(vChoose(15) - 1)
+		// every built-in severity, and two registered ones that are GATED as Panic / Fatal: only the
+		// explicit Panic and Fatal severities terminate
+		sev = Level(vChoose(17) - 1)
+		if sev == 14 {
+			sev = vC12AsPanic
+		} else if sev == 15 {
+			sev = vC12AsFatal
+		}
 	}
 	var r Level
 	var ok bool
@@ -85,7 +96,13 @@ func VH_C12() {
 	if !ok {
 		return
 	}
-	admitted := vSpecEnabled(L, r, dbg, nil)
+	gate := r
+	if r == vC12AsPanic {
+		gate = PanicLevel
+	} else if r == vC12AsFatal {
+		gate = FatalLevel
+	}
+	admitted := vSpecEnabled(L, gate, dbg, nil)
 	if e == 33 || e == 34 || e == 59 || e == 60 {
 		admitted = false
 	}
